@@ -204,6 +204,14 @@ theorem address_roundtrip (a : Bytes) (h : a.length = 20) :
 theorem checksum_is_eip55 (a : Bytes) (h : a.length = 20) : addressChecksumString a = Spec.Numeric.eip55 a :=
   FFS.Lemmas.Eip55.checksum_eq_eip55 a h
 
+/-- **The checksum form parses back to the address**: the third printed form round-trips too (the parser ignores letter
+    case: `Lemmas/Eip55.hexDecode_congr`). -/
+theorem checksum_roundtrip (a : Bytes) (h : a.length = 20) : addressSetString (addressChecksumString a) = .ok a := by
+  rw [checksum_is_eip55 a h, address_parse_iff]
+  obtain ⟨cs, he, hd⟩ := FFS.Lemmas.Eip55.eip55_decodes a
+  rw [he]
+  exact ⟨by simp only [trim0x]; rw [hd, hexDecode_hexEncode], h⟩
+
 /-! ### integers print as 0x-hex without leading zeros and parse back -/
 
 theorem digitVal_hexChar (n : Nat) (h : n < 16) : digitVal (hexChar n) = some n ∧ hexChar n ≠ '_' := by
